@@ -19,6 +19,7 @@ type DBIterator struct {
 
 	lowerBound []byte
 	upperBound []byte
+	prefix     []byte
 	isAsc      bool
 	// seekOutOfRange marks Seek calls that intentionally invalidated the
 	// iterator due to bounds checks. While set, Next must not advance from a
@@ -91,6 +92,7 @@ func (db *DB) NewIterator(opt *utils.Options) utils.Iterator {
 		keyOnly:    keyOnly,
 		lowerBound: opt.LowerBound,
 		upperBound: opt.UpperBound,
+		prefix:     opt.Prefix,
 		isAsc:      opt.IsAsc,
 	}
 	itr.item.vlog = db.vlog
@@ -234,6 +236,10 @@ func (iter *DBIterator) populate() {
 				iter.valid = false
 				return
 			}
+			iter.iitr.Next()
+			continue
+		}
+		if len(iter.prefix) > 0 && !bytes.HasPrefix(userKey, iter.prefix) {
 			iter.iitr.Next()
 			continue
 		}
